@@ -57,6 +57,7 @@ impl SvgElement {
 //@end
 //@item src/element.rs :: impl SvgElement :: fn pop_attr
 //@ ensures
+//@ - opt_sv(r) == map_get(old(self).attrs@, key@)
 //@ - final(self).attrs@ == old(self).attrs@.remove(key@) && final(self).name == old(self).name
 //@end
 //@item src/position.rs :: impl SvgElement :: fn remove_attrs
@@ -141,6 +142,57 @@ impl Position {
 //@      oval(r.width) == (if round && num_or(m, "rx"@, "r"@) is Some { twice(num_or(m, "rx"@, "r"@)) } else { plain_w })
 //@      && oval(r.height) == (if round && num_or(m, "ry"@, "r"@) is Some { twice(num_or(m, "ry"@, "r"@)) } else { plain_h }) })     @@C11.harvest.length
 //@ - r.shape@ == value.name@
+//@end
+}
+
+// ------------------------------------------------------------------------------ dx / dy applied as a translation (transmute)
+pub uninterp spec fn translated_spec(e: SvgElement, dx: real, dy: real) -> Option<SvgElement>;
+impl SvgElement {
+    #[verifier::external_body]
+    pub fn translated(&self, dx: R32, dy: R32) -> (r: Result<SvgElement>)
+        ensures (match translated_spec(*self, val(dx), val(dy)) { Some(e) => r == Ok::<SvgElement, SvgdxError>(e), None => r is Err })
+    { unimplemented!() }
+//@item src/element.rs :: impl SvgElement :: fn transmute
+//@ strlit "text" "tspan" "feOffset" "dx" "dy"
+//@ fragment-name dxdy_block
+//@ fragment-from <<<        if !matches!(self.name.as_str(), "text" | "tspan" | "feOffset") {>>>
+//@ fragment-to <<<                *self = self.translated(d_x.unwrap_or_default(), d_y.unwrap_or_default())?;\n            }\n        }>>>
+//@ fragment-head <<<fn dxdy_block(&mut self) -> Result<()> {>>>
+//@ fragment-tail <<<        Ok(())\n}>>>
+//@ replace-all[R-default] <<<.unwrap_or_default()>>> => <<<.unwrap_or(0.)>>>
+//@ body-start
+//@ | let ghost mut g_mid = *self;
+//@ | let ghost mut g_done = false;
+//@ before <<<*self = self.translated(>>>
+//@ | proof { g_mid = *self; g_done = true; }
+//@ before <<<        Ok(())\n}>>>
+//@ | proof {
+//@ |     let o = old(self).attrs@;
+//@ |     let ddx = if o.dom().contains("dx"@) { strp_spec(o["dx"@])->Some_0 } else { 0real };
+//@ |     let ddy = if o.dom().contains("dy"@) { strp_spec(o["dy"@])->Some_0 } else { 0real };
+//@ |     let any_d = o.dom().contains("dx"@) || o.dom().contains("dy"@);
+//@ |     if g_done {
+//@ |         assert(g_mid.attrs@ == o.remove("dx"@).remove("dy"@));
+//@ |         assert(g_mid.name == old(self).name);
+//@ |         assert(translated_spec(g_mid, ddx, ddy) == Some(*self));
+//@ |         assert(any_d);
+//@ |     } else if !(old(self).name@ == "text"@ || old(self).name@ == "tspan"@ || old(self).name@ == "feOffset"@) {
+//@ |         assert(!any_d);
+//@ |         assert(o.remove("dx"@).remove("dy"@) =~= o);
+//@ |     }
+//@ | }
+//@ ensures
+//@ - (old(self).name@ == "text"@ || old(self).name@ == "tspan"@ || old(self).name@ == "feOffset"@) ==> r is Ok && *final(self) == *old(self)     @@C11.dxdy.text_keeps_own_meaning
+//@ - !(old(self).name@ == "text"@ || old(self).name@ == "tspan"@ || old(self).name@ == "feOffset"@) && r is Ok
+//@       && !(old(self).attrs@.dom().contains("dx"@) || old(self).attrs@.dom().contains("dy"@)) ==> final(self).attrs@ == old(self).attrs@ && final(self).name == old(self).name     @@C11.dxdy.absent_untouched
+//@ - !(old(self).name@ == "text"@ || old(self).name@ == "tspan"@ || old(self).name@ == "feOffset"@) && r is Ok
+//@       && (old(self).attrs@.dom().contains("dx"@) || old(self).attrs@.dom().contains("dy"@)) ==> ({
+//@       let o = old(self).attrs@;
+//@       let ddx = if o.dom().contains("dx"@) { strp_spec(o["dx"@])->Some_0 } else { 0real }; let ddy = if o.dom().contains("dy"@) { strp_spec(o["dy"@])->Some_0 } else { 0real };
+//@       exists|e0: SvgElement, ax: real, ay: real| ax == ddx && ay == ddy && e0.attrs@ == o.remove("dx"@).remove("dy"@) && e0.name == old(self).name
+//@           && #[trigger] translated_spec(e0, ax, ay) == Some(*final(self)) })     @@C11.dxdy.translation
+//@ - !(old(self).name@ == "text"@ || old(self).name@ == "tspan"@ || old(self).name@ == "feOffset"@)
+//@       && ((old(self).attrs@.dom().contains("dx"@) && strp_spec(old(self).attrs@["dx"@]) is None) || (old(self).attrs@.dom().contains("dy"@) && strp_spec(old(self).attrs@["dy"@]) is None)) ==> r is Err     @@C11.dxdy.unresolved_is_error
 //@end
 }
 
